@@ -48,5 +48,25 @@ k("K65", "C20", "frame/frame.go", "\tif compress && isCompressible(f.Body.Messag
 k("K66", "C20", "message/startup.go", "\treturn found && v == \"1\"", "\treturn found && v == \"true\"",
   "accessor-pairing:Startup.ThrowOnOverload", "setter stores 1, getter compares true")
 
+# ---- C17
+k("K10", "C17", "message/deepcopy_generated.go", "\tif in.PagingState != nil {\n\t\tin, out := &in.PagingState, &out.PagingState\n\t\t*out = make([]byte, len(*in))\n\t\tcopy(*out, *in)\n\t}\n\tif in.SerialConsistency != nil {\n\t\tin, out := &in.SerialConsistency, &out.SerialConsistency\n\t\t*out = new(primitive.ConsistencyLevel)\n\t\t**out = **in\n\t}\n\tif in.DefaultTimestamp != nil {\n\t\tin, out := &in.DefaultTimestamp, &out.DefaultTimestamp\n\t\t*out = new(int64)\n\t\t**out = **in\n\t}\n\tif in.NowInSeconds != nil {\n\t\tin, out := &in.NowInSeconds, &out.NowInSeconds\n\t\t*out = new(int32)\n\t\t**out = **in\n\t}\n\tif in.ContinuousPagingOptions",
+  "\tif in.SerialConsistency != nil {\n\t\tin, out := &in.SerialConsistency, &out.SerialConsistency\n\t\t*out = new(primitive.ConsistencyLevel)\n\t\t**out = **in\n\t}\n\tif in.DefaultTimestamp != nil {\n\t\tin, out := &in.DefaultTimestamp, &out.DefaultTimestamp\n\t\t*out = new(int64)\n\t\t**out = **in\n\t}\n\tif in.NowInSeconds != nil {\n\t\tin, out := &in.NowInSeconds, &out.NowInSeconds\n\t\t*out = new(int32)\n\t\t**out = **in\n\t}\n\tif in.ContinuousPagingOptions",
+  "field:(*message.QueryOptions).DeepCopyInto.PagingState", "block for one field deleted")
+k("K11", "C17", "frame/deepcopy_generated.go", "\t\t\t\tin, out := &val, &outVal\n\t\t\t\t*out = make([]byte, len(*in))\n\t\t\t\tcopy(*out, *in)\n", "\t\t\t\toutVal = val\n",
+  "no-alias:(*frame.Body).DeepCopyInto", "map values alias the original")
+k("K12", "C17", "message/result_metadata.go", "type ColumnMetadata struct {\n\tKeyspace string\n", "type ColumnMetadata struct {\n\tExtra    []string\n\tKeyspace string\n",
+  "field:(*message.ColumnMetadata).DeepCopyInto.Extra", "field added without regenerating")
+k("K67", "C17", "message/deepcopy_generated.go", "\t\t*out = make([]*BatchChild, len(*in))\n\t\tfor i := range *in {\n\t\t\tif (*in)[i] != nil {\n\t\t\t\tin, out := &(*in)[i], &(*out)[i]\n\t\t\t\t*out = new(BatchChild)\n\t\t\t\t(*in).DeepCopyInto(*out)\n\t\t\t}\n\t\t}\n",
+  "\t\t*out = make([]*BatchChild, len(*in))\n\t\tcopy(*out, *in)\n",
+  "no-alias:(*message.Batch).DeepCopyInto", "slice of pointers copied shallowly")
+k("K68", "C17", "primitive/uuid.go", "\tnewUuid := *u\n\treturn &newUuid\n", "\treturn u\n",
+  "(*primitive.UUID).DeepCopy", "hand-written copy returns the original")
+k("K69", "C17", "message/deepcopy_generated.go", "\t\t*out = make([][][]byte, len(*in))\n\t\tfor i := range *in {\n\t\t\tif (*in)[i] != nil {\n\t\t\t\tin, out := &(*in)[i], &(*out)[i]\n\t\t\t\t*out = make([][]byte, len(*in))\n\t\t\t\tfor i := range *in {\n\t\t\t\t\tif (*in)[i] != nil {\n\t\t\t\t\t\tin, out := &(*in)[i], &(*out)[i]\n\t\t\t\t\t\t*out = make([]byte, len(*in))\n\t\t\t\t\t\tcopy(*out, *in)\n\t\t\t\t\t}\n\t\t\t\t}\n\t\t\t}\n\t\t}\n",
+  "\t\t*out = make([][][]byte, len(*in))\n\t\tfor i := range *in {\n\t\t\tif (*in)[i] != nil {\n\t\t\t\tin, out := &(*in)[i], &(*out)[i]\n\t\t\t\t*out = make([][]byte, len(*in))\n\t\t\t\tcopy(*out, *in)\n\t\t\t}\n\t\t}\n",
+  "no-alias:(*message.RowsResult).DeepCopyInto", "innermost level of a nested slice copied shallowly")
+k("K70", "C17", "frame/deepcopy_generated.go", "\tif in.Header != nil {\n\t\tin, out := &in.Header, &out.Header\n\t\t*out = new(Header)\n\t\t**out = **in\n\t}\n\tif in.Body != nil {\n\t\tin, out := &in.Body, &out.Body\n\t\t*out = new(Body)\n\t\t(*in).DeepCopyInto(*out)\n\t}",
+  "\tif in.Header != nil {\n\t\tin, out := &in.Header, &out.Header\n\t\t*out = new(Header)\n\t\t**out = **in\n\t}\n\tif in.Body != nil {\n\t\tin, out := &in.Body, &out.Body\n\t\t*out = new(Body)\n\t\t**out = **in\n\t}",
+  "no-alias:(*frame.Frame).DeepCopyInto", "nested struct with references copied by value")
+
 json.dump(C, open(os.path.join(os.path.dirname(os.path.abspath(__file__)), "controls.json"), "w"), indent=1)
 print(len(C), "controls")
